@@ -42,23 +42,14 @@ func newEnv(log *mon.Log, withListeners bool) (*env, func()) {
 
 var _ http.Handler = (*wireServer)(nil)
 
+// debugMain (C21_DEBUG=1|listener) dumps the fault-free run of every short
+// shape: a development aid, not part of the check.
 func debugMain() {
 	log := mon.NewLog()
 	svc.SetSink(log)
 	e, done := newEnv(log, true)
 	defer done()
 	shapes := shortShapes()
-	if os.Getenv("C21_DEBUG") == "extra" {
-		shapes = nil
-		for _, m := range []string{"x_plain", "x_hdr", "p_plain", "p_hdr"} {
-			shapes = append(shapes, History{Shape: "IE-" + m, Method: m, Server: 2,
-				Script:  svc.Script{InitAct: svc.ActError, Header: true, DeclInput: true, Producer: m[0] == 'p', InitErr: rpcErr("ValueError", "init refused", "not_found")},
-				Actions: []Action{{Op: "cancel"}}})
-		}
-		shapes = append(shapes, History{Shape: "PE", Method: "p_plain", Server: 2,
-			Script: svc.Script{InitAct: svc.ActOK, Header: true, Producer: true, Turns: []svc.Turn{{Act: svc.ActEmit, Rows: 1}, {Act: svc.ActEmit, Rows: 1}, {Act: svc.ActError, Err: rpcErr("KeyError", "boom", "")}}},
-			Actions: []Action{{Op: "next"}, {Op: "next"}, {Op: "next"}, {Op: "cancel"}}})
-	}
 	for i, h := range shapes {
 		h := h
 		h.ID = fmt.Sprintf("dbg%d", i)
@@ -92,5 +83,41 @@ func main() {
 		_ = pprof.StartCPUProfile(f)
 		defer pprof.StopCPUProfile()
 	}
+	if p := r.ReplayPath(); p != "" {
+		replay(r, p)
+		return
+	}
 	runCheck(r)
+}
+
+// replay re-runs the history stored in a replay file (witness.history) and
+// reports what the monitors say about it.
+func replay(r *mon.Run, path string) {
+	data, err := os.ReadFile(path)
+	if err != nil {
+		r.Fatal("replay: %v", err)
+	}
+	var doc struct {
+		Witness struct {
+			History History `json:"history"`
+		} `json:"witness"`
+	}
+	if err := json.Unmarshal(data, &doc); err != nil || doc.Witness.History.Method == "" {
+		r.Fatal("replay: no witness.history in %s (%v)", path, err)
+	}
+	log := mon.NewLog()
+	svc.SetSink(log)
+	e, done := newEnv(log, true)
+	defer done()
+	h := doc.Witness.History
+	rec := e.runHistory(&h)
+	v := judge(&h, rec)
+	r.Case(v.Sig)
+	for k := range v.Classes {
+		r.Class(k)
+	}
+	for _, f := range v.Findings {
+		r.Violation(f.Sig, f.What, witnessOf(&h, rec, f))
+	}
+	fmt.Printf("  replayed %s: %d round trips, %d finding(s)\n", h.Shape, len(rec.Trips), len(v.Findings))
 }
